@@ -238,6 +238,30 @@ def one_twin(i, t, prop):
         shutil.rmtree(d, ignore_errors=True)
 
 
+def one_seed(slug):
+    """A kept, independently produced breaking change (seeded/<slug>): the named property's check must fire."""
+    import json
+    sd = os.path.join(VERIF, 'seeded', slug)
+    meta = json.load(open(os.path.join(sd, 'meta.json')))
+    prop = meta['property']
+    d = tempfile.mkdtemp(prefix='sa-selftest-')
+    try:
+        _copy(d)
+        p = subprocess.run(['patch', '-p1', '-s', '-d', d, '-i', os.path.join(sd, 'patch.diff')], capture_output=True, text=True)
+        if p.returncode != 0:
+            return ('STALE', slug, (prop, 'seeded/' + slug, 'patch.diff'), 'patch no longer applies: %s' % p.stdout[-200:])
+        checks = meta.get('check_properties') or [prop]
+        outs = []
+        for c in checks:
+            rc, out = _run(c, d)
+            outs.append((c, rc))
+            if rc == 1:
+                return ('KILLED', slug, (prop, 'seeded/' + slug, 'patch.diff'), 'caught by %s' % c)
+        return ('MISSED', slug, (prop, 'seeded/' + slug, 'patch.diff'), 'no check fired: %s' % outs)
+    finally:
+        shutil.rmtree(d, ignore_errors=True)
+
+
 def run_for(prop=None, verbose=True):
     """Exit code 0 when every mutant of `prop` (all when None) is killed and no twin raises an alarm."""
     jobs = []
@@ -249,6 +273,15 @@ def run_for(prop=None, verbose=True):
             for p in t[0]:
                 if prop is None or p == prop:
                     jobs.append(ex.submit(one_twin, i, t, p))
+        sdir = os.path.join(VERIF, 'seeded')
+        if os.path.isdir(sdir):
+            import json
+            for slug in sorted(os.listdir(sdir)):
+                mp = os.path.join(sdir, slug, 'meta.json')
+                if os.path.exists(mp):
+                    mprop = json.load(open(mp))['property']
+                    if prop is None or mprop == prop:
+                        jobs.append(ex.submit(one_seed, slug))
         results = [j.result() for j in jobs]
     bad = [r for r in results if r[0] in ('MISSED', 'FALSE-ALARM', 'BROKEN')]
     stale = [r for r in results if r[0] == 'STALE']
